@@ -125,3 +125,37 @@ __CPROVER_ensures(OWN_PTR(ret) == (gh_rdy_result ? this_ : (MX *)0))
 __CPROVER_ensures(gh_allocs == __CPROVER_old(gh_allocs))
 ;
 #endif
+
+/* ---- co_awaiter<mutex> glue (forwarder units): co_await m.lock() = ready() ? owner : (set_handle(h), subscribe(this)); await_resume = value() */
+#if defined(CV_HAS_mxaw_ready) || defined(CV_HAS_mxaw_suspend)
+int gh_g_ready_calls, gh_g_sub_calls; MX *gh_g_mx; AWT *gh_g_aw; cv_i1 gh_g_result; void *gh_g_handle_at_sub, *gh_g_fn_at_sub;
+#ifdef CV_HAS_g_ready_stub
+cv_i1 g_ready_stub(MX *m) { gh_g_ready_calls++; gh_g_mx = m; return gh_g_result; }
+#endif
+#ifdef CV_HAS_g_subscribe_stub
+cv_i1 g_subscribe_stub(MX *m, AWT *a) { gh_g_sub_calls++; gh_g_mx = m; gh_g_aw = a; gh_g_handle_at_sub = a->_handle_addr; gh_g_fn_at_sub = (void *)a->_resume_fn; return gh_g_result; }
+#endif
+#endif
+#ifdef CV_HAS_mxaw_ready
+cv_i1 mxaw_ready(MXAW *this_)
+__CPROVER_requires(cv_exc_pending == 0 && gh_g_ready_calls == 0 && gh_g_result <= 1 && __CPROVER_is_fresh(this_, sizeof(*this_)))
+__CPROVER_assigns(gh_g_ready_calls, gh_g_mx)
+__CPROVER_ensures(cv_exc_pending == 0 && gh_g_ready_calls == 1 && gh_g_mx == this_->_owner && __CPROVER_return_value == gh_g_result)   /* exactly one try-lock on the awaited mutex */
+;
+#endif
+#ifdef CV_HAS_mxaw_suspend
+cv_i1 mxaw_suspend(MXAW *this_, cv_i8 *h)
+__CPROVER_requires(cv_exc_pending == 0 && gh_g_sub_calls == 0 && gh_g_result <= 1 && __CPROVER_is_fresh(this_, sizeof(*this_)) && h != 0)
+__CPROVER_assigns(__CPROVER_object_whole(this_), gh_g_sub_calls, gh_g_mx, gh_g_aw, gh_g_handle_at_sub, gh_g_fn_at_sub)
+__CPROVER_ensures(cv_exc_pending == 0 && gh_g_sub_calls == 1 && gh_g_mx == this_->_owner && gh_g_aw == (AWT *)&this_->base_awaiter && __CPROVER_return_value == gh_g_result)
+__CPROVER_ensures(gh_g_handle_at_sub == (void *)h && gh_g_fn_at_sub == 0)          /* the request node carries the awaiting coroutine BEFORE it is published */
+__CPROVER_ensures(gh_allocs == __CPROVER_old(gh_allocs))
+;
+#endif
+#ifdef CV_HAS_mxaw_resume
+void mxaw_resume(OWNT *ret, MXAW *this_)
+__CPROVER_requires(cv_exc_pending == 0 && __CPROVER_is_fresh(this_, sizeof(*this_)) && __CPROVER_is_fresh(ret, sizeof(*ret)))
+__CPROVER_assigns(__CPROVER_object_whole(ret))
+__CPROVER_ensures(cv_exc_pending == 0 && OWN_PTR(ret) == this_->_owner && gh_allocs == __CPROVER_old(gh_allocs))    /* the resumed waiter owns exactly the awaited mutex */
+;
+#endif
